@@ -250,7 +250,7 @@ class ImplRun:
                 for e in log:
                     self.out += [e["from"]] + bts(e["addr"]) + bts(e["data"]) + [int(e["noack"]), e["attempts"],
                                                                                     int(e["ok"]), len(e["receivers"])]
-                    for a, b in e["receivers"]:
+                    for a, b in e["raw_receivers"]:
                         self.out += [a, b]
             else:
                 o = self.objs[self.cur]
@@ -343,7 +343,7 @@ def checked_run(model, plus, obj_radios, make_obj, ops, checker):
             for e in lg:
                 out += [e["from"]] + bts(e["addr"]) + bts(e["data"]) + [int(e["noack"]), e["attempts"], int(e["ok"]),
                                                                          len(e["receivers"])]
-                for a, b in e["receivers"]:
+                for a, b in e["raw_receivers"]:
                     out += [a, b]
             if verdict is None:
                 v = checker.air(k, lg)
